@@ -639,6 +639,44 @@ func checkRouter(sc routerScenario, r *routerResult) []connVerdict {
 				}
 			}
 		}
+		// C16: the configured targets are exactly the distinct non-empty addresses last given to Update
+		if f[0] == "update" {
+			if nt := obsInt(obs, "nt"); nt >= 0 && nt != len(cur) {
+				add("C16", "targets-are-what-update-gave", "C16/configured-targets-differ", fmt.Sprintf("after %q the client holds %d targets, the distinct non-empty addresses given are %v", a, nt, keys(cur)))
+			}
+		}
+		// C17/C18: the cursor stays inside the live list
+		if pos := obsInt(obs, "pos"); len(list) > 0 && pos >= len(list) {
+			add("C18", "cursor-in-range", "C18/cursor-out-of-range", fmt.Sprintf("after action %d (%s) the round-robin cursor is %d with live list %v: the next pick indexes outside the list under the client lock", i, a, pos, list))
+		}
+		// C17: a detection pass that finds the live set unchanged leaves the list and the cursor alone
+		// (round robin continues where it was; a pass must not reshuffle the rotation)
+		if f[0] == "wait" && i > 0 && !r.timing {
+			prev := parseList(r.obs[i-1], "list")
+			a1, a2 := append([]string(nil), prev...), append([]string(nil), list...)
+			sort.Strings(a1)
+			sort.Strings(a2)
+			if len(a1) > 0 && strings.Join(a1, ",") == strings.Join(a2, ",") && strings.Join(parseList(r.obs[i-1], "alive"), ",") == strings.Join(parseList(obs, "alive"), ",") {
+				if strings.Join(prev, ",") != strings.Join(list, ",") || obsInt(r.obs[i-1], "pos") != obsInt(obs, "pos") {
+					add("C17", "pass-leaves-rotation-alone", "C17/rotation-reset-without-change/"+sc.Policy, fmt.Sprintf("detection pass at action %d found the same live set %v, yet list/cursor went from %v/%d to %v/%d", i, a2, prev, obsInt(r.obs[i-1], "pos"), list, obsInt(obs, "pos")))
+				}
+			}
+		}
+		// C17/C18: a call that ended with ErrDial at a target that is down has told the target:
+		// it is no longer alive when the call form returns
+		// (with a single live target schedule() hands out the address without the target: the last
+		// one standing is never reported, so the rule applies to lists of two or more)
+		if (f[0] == "route" || f[0] == "gos" || f[0] == "rts" || f[0] == "ctxs" || f[0] == "pings") && !parked && director == "-" && i > 0 && len(parseList(r.obs[i-1], "list")) >= 2 {
+			results := lastResults(obs, len(newSent))
+			alive := parseList(obs, "alive")
+			for j, x := range newSent {
+				if j < len(results) && results[j] == "dial" && x != "" && cur[x] && !up[x] && contains(alive, x) {
+					add("C17", "unreachable-is-reset", "C17/unreachable-not-reported/"+f[0], fmt.Sprintf("a %s call to %s ended with ErrDial, yet %s is still marked alive when the batch has returned (its estimate was not reset either)", f[0], x, x))
+					add("C18", "dial-failure-marks-dead", "C18/unreachable-not-reported/"+f[0], fmt.Sprintf("a %s call to %s ended with ErrDial, yet %s is still marked alive when the batch has returned", f[0], x, x))
+					break
+				}
+			}
+		}
 		// C16: every address used is a current target, the Director's answer, or "" (no target → ErrDial)
 		for _, addr := range newSent {
 			if addr == "" || cur[addr] || (director != "-" && addr == director) {
@@ -678,6 +716,19 @@ func checkRouter(sc routerScenario, r *routerResult) []connVerdict {
 		prevSent = len(sent)
 	}
 	return out
+}
+
+// obsInt: the integer value of `key=` in an observation (-1 if absent).
+func obsInt(obs, key string) int {
+	i := strings.Index(obs, " "+key+"=")
+	if i < 0 {
+		return -1
+	}
+	v := 0
+	if _, err := fmt.Sscanf(obs[i+len(key)+2:], "%d", &v); err != nil {
+		return -1
+	}
+	return v
 }
 
 // lastResults: the outcomes of the last n calls listed in an observation.
